@@ -163,6 +163,23 @@ class Program:
             for g in c["global_asm"]:
                 g["crate"] = name
                 self.global_asm.append(g)
+        # field types come from type_of() and keep array lengths as written (`[u8; BUF_LEN]`): evaluate a named length through the
+        # constant of that name in the ADT's own module (or crate), so that `[u8; 512]` and `[u8; BUF_LEN]` are one type
+        import re as _re
+        for apath, a in self.adts.items():
+            for v in a.get("variants", []):
+                for f_ in v.get("fields", []):
+                    m = _re.fullmatch(r"\[(.+); ([A-Za-z_][A-Za-z0-9_:]*)\]", f_["ty"])
+                    if not m or m.group(2).isdigit():
+                        continue
+                    nm = m.group(2).split("::")[-1]
+                    mod = apath.rsplit("::", 1)[0]
+                    cands = [cp for cp in self.consts if cp.endswith("::" + nm) and (cp.startswith(mod + "::") or cp.split("::")[0] == apath.split("::")[0])]
+                    cands.sort(key=lambda cp: (not cp.startswith(mod + "::"), len(cp)))
+                    val = self.consts[cands[0]].get("value") if cands else None
+                    if isinstance(val, int):
+                        f_["ty_written"] = f_["ty"]
+                        f_["ty"] = f"[{m.group(1)}; {val}]"
         # normalisation: helpers that are new relative to the pinned baseline are expanded at their call sites (see inline.py)
         self.expanded_helpers = []
         if os.environ.get("VERIF_NO_INLINE") != "1":
